@@ -126,6 +126,12 @@ Theorem C13_other_sheet_unchanged :
 Proof. exact other_sheet_ref_unchanged. Qed.
 Print Assumptions C13_other_sheet_unchanged.
 
+(* the premise [1 <= r] of the theorems above is what delete_rows / delete_columns validate *)
+Theorem C13_accepted_delete_band_on_grid :
+  forall last r k, 0 < k -> edit_valid last r (- k) = true -> 1 <= r /\ r + k - 1 <= last.
+Proof. exact accepted_delete_on_grid. Qed.
+Print Assumptions C13_accepted_delete_band_on_grid.
+
 (* non-vacuity: "=B5" in C7, rows 4..5 deleted -> "#REF!"; "=B6" -> "=B4" seen from C5 *)
 Example C13_nonvacuous :
   apply_disp_full (DRow 0 4 (-2)) true (7, 3)
